@@ -47,6 +47,9 @@ pub struct SynthSource {
     /// Sizes of the successful reads since the consumer last cleared it, and all calls since then
     /// (shared with the consumer while the reader holds the source).
     pub op_log: std::rc::Rc<std::cell::RefCell<OpLog>>,
+    /// Only the read-accounting consumer clears the log after every call; for everyone else the
+    /// sizes are not recorded (an ever-growing vector would be charged to the memory bound).
+    pub log_sizes: bool,
 }
 
 #[derive(Default)]
@@ -73,6 +76,7 @@ impl SynthSource {
             fail_at_end: c.fail_at_end,
             ended: false,
             op_log: Default::default(),
+            log_sizes: false,
         }
     }
 }
@@ -129,7 +133,9 @@ impl Read for SynthSource {
         }
         self.pos += n as u64;
         self.trace.u64(n as u64);
-        self.op_log.borrow_mut().ok_sizes.push(n);
+        if self.log_sizes {
+            self.op_log.borrow_mut().ok_sizes.push(n);
+        }
         Ok(n)
     }
 }
@@ -198,6 +204,7 @@ impl RawStream {
 impl RawStream {
     fn exec_reads(&self, case: &RawCase, st: &mut Stats) -> RunOut {
         let mut src = SynthSource::new(case);
+        src.log_sizes = true;
         let log = src.op_log.clone();
         let mut violation: Option<Violation> = None;
         let mut consumed: u64 = 0;
